@@ -283,3 +283,10 @@ Print Assumptions C08_sync_block_ops_partial.
 Theorem C08_source_tie : C08_source_tie_statement.
 Proof. exact C08_source_tie_proof. Qed.
 Print Assumptions C08_source_tie.
+
+(** The decision-critical functions of the anchored code have exactly the decisions the source tie knows about
+    (go2coq manifests, regenerated from /repo on every check; statement in SourceManifest.v). *)
+From Kardia Require Import C08.SourceManifest.
+Theorem C08_source_manifest : C08_source_manifest_statement.
+Proof. exact C08_source_manifest_proof. Qed.
+Print Assumptions C08_source_manifest.
